@@ -725,6 +725,34 @@ def check_cache(rep, prog):
         raise facts.AnalysisBroken('R-cache found only %d stores to cache sources' % n)
 
 
+def check_store_before_replay(rep, prog):
+    """the buffers held while a flow definition was being negotiated go out under that definition"""
+    rep.rule('R-store-before-replay', 'every function that both stores the output flow definition (X_store_flow_def) and replays the held input (X_output_input) - the '
+             'X_check call-backs run when a ubuf manager or flow format request is answered: no store is reachable after a replay. The buffers held since '
+             'set_flow_def belong to the new flow; replayed first they would be delivered while the output helper still holds the previous definition '
+             '(unanimous: 11 functions thorough)')
+    n = 0
+    for uname, u in sorted(prog.units.items()):
+        for fn in sorted(u.funcs.values(), key=lambda f: f.name):
+            if not fn.blocks or fn.macro:
+                continue
+            ev = pr.Events(fn)
+            st = pr.m_call(r'\w+_store_flow_def$')
+            oi = pr.m_call(r'\w+_output_input$')
+            if not ev.find(st) or not ev.find(oi):
+                continue
+            n += 1
+            late = []
+            for pos in ev.find(oi):
+                hits, _ = ev.reach((pos[0], pos[1]), st, lambda n_: False)
+                late += [(pos, h) for h in hits]
+            rep.add('R-store-before-replay', fn.name, VIOLATED if late else HOLDS, fn.loc,
+                    **({'what': '%s replays the held buffers (%s, line %s) and only then stores the flow definition (%s, line %s): they are output under the '
+                                'previous definition, the new one goes out with the next buffer' % (
+                                    fn.name, late[0][0][2]['fn'], late[0][0][2].get('l'), late[0][1][2]['fn'], late[0][1][2].get('l'))} if late else {}))
+    return n
+
+
 def run(tier='quick', repo=None):
     repo = repo or facts.REPO
     rep = Report(PROP, tier)
@@ -789,6 +817,9 @@ def run(tier='quick', repo=None):
         raise facts.AnalysisBroken('R-gate-inband found only %d callers of input handlers' % nband)
     check_dead_guard(rep, prog)
     check_cache(rep, prog)
+    nsr = check_store_before_replay(rep, prog)
+    if nsr < 5:
+        raise facts.AnalysisBroken('R-store-before-replay found only %d functions' % nsr)
     if ninner < 3:
         raise facts.AnalysisBroken('R-gate-inner found only %d negotiations with inner pipes' % ninner)
     rep.assumptions = [
